@@ -73,6 +73,10 @@ class P:
                     where.append("-%s=%s" % (flag[f], srcs["cli"]))
                 C += [flag[f], hx(srcs["cli"])]
         line = "options D %s E %s F %s C %s" % (" ".join(D), " ".join(E), " ".join(F), " ".join(C))
+        if filelines and rng is not None and rng.random() < 0.15:
+            # one line of the file written twice (the same key with the same value): every key of the file still counts
+            k = rng.randrange(len(filelines))
+            filelines = filelines + [filelines[k]]
         text = ("\n".join(filelines) + "\n") if filelines else None
         if text is not None and rng is not None and rng.random() < 0.3:
             # an annotated configuration file: comment blocks of 5 kB / 70 kB before, between or after the settings (a file has no
